@@ -17,6 +17,7 @@ const (
 	TMap
 	TTuple
 	TRef
+	TObj // reference to an object of an interface of the package
 )
 
 // IType is an IDL type expression.
@@ -28,6 +29,7 @@ type IType struct {
 	Val    *IType
 	Mem    []*IType
 	Ref    *StructDecl
+	Obj    *Iface
 }
 
 type Field struct {
@@ -58,6 +60,7 @@ type Iface struct {
 
 type Package struct {
 	Name    string
+	GenPath string // package path handed to the generators ("" = the tool's default)
 	Structs []*StructDecl
 	Ifaces  []*Iface
 	Stream  string // "plain" | "hostile"
@@ -65,7 +68,7 @@ type Package struct {
 }
 
 var scalarLetter = map[string]string{"int8": "c", "uint8": "C", "int16": "w", "uint16": "W", "int32": "i", "uint32": "I",
-	"int64": "l", "uint64": "L", "float32": "f", "float64": "d", "bool": "b", "str": "s", "any": "m"}
+	"int64": "l", "uint64": "L", "float32": "f", "float64": "d", "bool": "b", "str": "s", "any": "m", "obj": "o"}
 
 // ScalarNames in a fixed order (generation draws from it).
 var ScalarNames = []string{"int8", "uint8", "int16", "uint16", "int32", "uint32", "int64", "uint64", "float32", "float64", "bool", "str", "any"}
@@ -75,6 +78,8 @@ func Vec(e *IType) *IType        { return &IType{K: TVec, Elem: e} }
 func MapOf(k, v *IType) *IType   { return &IType{K: TMap, Key: k, Val: v} }
 func TupleOf(m ...*IType) *IType { return &IType{K: TTuple, Mem: m} }
 func RefTo(s *StructDecl) *IType { return &IType{K: TRef, Ref: s} }
+
+func ObjOf(it *Iface) *IType { return &IType{K: TObj, Obj: it} }
 
 // IDL prints the type the way meta/idl/parser.go reads it.
 func (t *IType) IDL() string {
@@ -91,6 +96,8 @@ func (t *IType) IDL() string {
 			it[i] = m.IDL()
 		}
 		return "Tuple<" + strings.Join(it, ",") + ">"
+	case TObj:
+		return t.Obj.Name
 	}
 	return t.Ref.Name
 }
@@ -110,6 +117,9 @@ func (t *IType) Ty() *wg.Ty {
 			m[i] = x.Ty()
 		}
 		return wg.Tuple(m...)
+	case TObj:
+		// an object reference; Name says which interface (the driver needs a live object)
+		return &wg.Ty{K: wg.KScalar, S: "o", Name: t.Obj.Name}
 	}
 	return t.Ref.Ty()
 }
@@ -157,6 +167,13 @@ func (t *IType) Walk(f func(*IType)) {
 	}
 }
 
+// MentionsObj: an object reference occurs in the type expression.
+func (t *IType) MentionsObj() bool {
+	r := false
+	t.Walk(func(x *IType) { r = r || x.K == TObj })
+	return r
+}
+
 // Text is the IDL file.
 func (p *Package) Text() string {
 	var b strings.Builder
@@ -197,12 +214,18 @@ func (p *Package) Number() {
 
 // Clone is a deep copy (struct references are re-pointed at the copies).
 func (p *Package) Clone() *Package {
-	q := &Package{Name: p.Name, Stream: p.Stream, Class: p.Class}
+	q := &Package{Name: p.Name, GenPath: p.GenPath, Stream: p.Stream, Class: p.Class}
 	m := map[*StructDecl]*StructDecl{}
 	for _, s := range p.Structs {
 		c := &StructDecl{Name: s.Name}
 		m[s] = c
 		q.Structs = append(q.Structs, c)
+	}
+	mi := map[*Iface]*Iface{}
+	for _, it := range p.Ifaces {
+		ci := &Iface{Name: it.Name}
+		mi[it] = ci
+		q.Ifaces = append(q.Ifaces, ci)
 	}
 	var ct func(t *IType) *IType
 	ct = func(t *IType) *IType {
@@ -216,6 +239,9 @@ func (p *Package) Clone() *Package {
 		if t.Ref != nil {
 			c.Ref = m[t.Ref]
 		}
+		if t.Obj != nil {
+			c.Obj = mi[t.Obj]
+		}
 		return c
 	}
 	for i, s := range p.Structs {
@@ -224,7 +250,7 @@ func (p *Package) Clone() *Package {
 		}
 	}
 	for _, it := range p.Ifaces {
-		ci := &Iface{Name: it.Name}
+		ci := mi[it]
 		for _, a := range it.Actions {
 			ca := &Action{Kind: a.Kind, Name: a.Name, Ret: ct(a.Ret), ID: a.ID}
 			for _, x := range a.Params {
@@ -232,7 +258,6 @@ func (p *Package) Clone() *Package {
 			}
 			ci.Actions = append(ci.Actions, ca)
 		}
-		q.Ifaces = append(q.Ifaces, ci)
 	}
 	return q
 }
